@@ -37,7 +37,7 @@ def plan(tier, seed):
 
 def thresholds(tier):
   t = {"configs_completed": 100, "ops_replayed": 10000, "subword_ops": 500, "amo_ops": 200, "responses_checked": 10000,
-       "multiport_configs": 50, "rtl_configs": 30, "cl_configs": 30, "backpressure_configs": 30, "metamorphic_pairs": 8}
+       "multiport_configs": 50, "rtl_configs": 30, "cl_configs": 30, "backpressure_configs": 30, "metamorphic_pairs": 8, "configs_with_ports_of_different_data_width": 20}
   if tier == "thorough":
     t = {k: v * 20 for k, v in t.items()}
   return t
@@ -83,24 +83,28 @@ class MemRef:
 # workload
 # ---------------------------------------------------------------------------
 
-def gen_stream(rng, nops, nwords, amo_p, subword_amo):
+def gen_stream(rng, nops, nwords, amo_p, subword_amo, dw=32):
+  """requests of one port whose data field is dw bits wide (len 0 = the full dw/8 bytes)"""
+  full = dw // 8
   out = []
   for i in range(nops):
     w = rng.randrange(nwords)
     r = rng.random()
     if r < amo_p:
-      ln = rng.choice([1, 2, 3]) if subword_amo and rng.random() < 0.5 else 0
-      out.append({"type": rng.choice(list(AMOS)), "addr": BASE + 4 * w, "len": ln,
-                  "data": rng.choice([rng.getrandbits(32), 0xFFFFFFFF, 0x80000000, 0x7FFFFFFF, 1, 0])})
+      ln = rng.randrange(1, full) if subword_amo and rng.random() < 0.5 and full > 1 else 0
+      nb = ln or full
+      out.append({"type": rng.choice(list(AMOS)), "addr": BASE + 4 * w, "len": ln, "nb": nb,
+                  "data": rng.choice([rng.getrandbits(dw), (1 << dw) - 1, 1 << (dw - 1), (1 << (dw - 1)) - 1, 1, 0,
+                                      1 << (8 * nb - 1), (1 << (8 * nb)) - 1])})
     else:
-      ln = rng.choice([0, 0, 1, 2, 3])
-      nbytes = ln or 4
-      off = rng.randrange(0, 4) if nbytes < 4 else rng.choice([0, 0, 0, 1, 2, 3])   # unaligned words straddle
+      ln = rng.choice([0, 0] + list(range(1, full)))
+      nbytes = ln or full
+      off = rng.randrange(0, 4) if nbytes < full else rng.choice([0, 0, 0, 1, 2, 3])   # unaligned words straddle
       addr = BASE + 4 * w + off
       if r < amo_p + (1 - amo_p) * 0.5:
-        out.append({"type": T_READ, "addr": addr, "len": ln, "data": 0})
+        out.append({"type": T_READ, "addr": addr, "len": ln, "nb": nbytes, "data": 0})
       else:
-        out.append({"type": T_WRITE, "addr": addr, "len": ln, "data": rng.getrandbits(32)})
+        out.append({"type": T_WRITE, "addr": addr, "len": ln, "nb": nbytes, "data": rng.getrandbits(dw)})
   return out
 
 
@@ -117,18 +121,20 @@ def gen_gaps(rng, n):
 # running the real thing
 # ---------------------------------------------------------------------------
 
-def build(model, nports, streams, gaps, ev, stall, latency, patterns):
+def build(model, nports, streams, gaps, ev, stall, latency, patterns, dws=None):
   from pymtl3 import Component, connect, DefaultPassGroup
   from pymtl3.stdlib.mem import mk_mem_msg
   from vlib import harness
-  Req, Resp = mk_mem_msg(8, 32, 32)
-  msgs = [[Req(r["type"], i & 0xFF, r["addr"], r["len"], r["data"]) for i, r in enumerate(st)] for st in streams]
+  dws = dws or [32] * nports
+  types = {dw: mk_mem_msg(8, 32, dw) for dw in set(dws)}
+  ptypes = [types[dw] for dw in dws]                      # per-port (request, response) classes: ports may differ in data width
+  msgs = [[ptypes[p][0](r["type"], i & 0xFF, r["addr"], r["len"], r["data"]) for i, r in enumerate(st)] for p, st in enumerate(streams)]
   if model == "cl":
     from pymtl3.stdlib.mem.MagicMemoryCL import MagicMemoryCL
     SrcCL, SinkCL = harness.mk_cl()
     class Top(Component):
       def construct(s):
-        s.mem = MagicMemoryCL(nports, [(Req, Resp)] * nports, stall, latency, MEMSZ)
+        s.mem = MagicMemoryCL(nports, list(ptypes), stall, latency, MEMSZ)
         s.srcs = [SrcCL(i, msgs[i], gaps[i], ev) for i in range(nports)]
         s.sinks = [SinkCL(i, ev) for i in range(nports)]
         for i in range(nports):
@@ -139,9 +145,9 @@ def build(model, nports, streams, gaps, ev, stall, latency, patterns):
     SrcRTL, SinkRTL = harness.mk_rtl()
     class Top(Component):
       def construct(s):
-        s.mem = MagicMemoryRTL(nports, [(Req, Resp)] * nports, stall, latency, MEMSZ)
-        s.srcs = [SrcRTL(Req, i, msgs[i], gaps[i], ev) for i in range(nports)]
-        s.sinks = [SinkRTL(Resp, i, ev, patterns[i]) for i in range(nports)]
+        s.mem = MagicMemoryRTL(nports, list(ptypes), stall, latency, MEMSZ)
+        s.srcs = [SrcRTL(ptypes[i][0], i, msgs[i], gaps[i], ev) for i in range(nports)]
+        s.sinks = [SinkRTL(ptypes[i][1], i, ev, patterns[i]) for i in range(nports)]
         for i in range(nports):
           connect(s.srcs[i].send, s.mem.ifc[i].req)
           connect(s.mem.ifc[i].resp, s.sinks[i].recv)
@@ -175,7 +181,7 @@ def build(model, nports, streams, gaps, ev, stall, latency, patterns):
 def simulate(sh, cfg, streams):
   ev = []
   n = cfg["nports"]
-  top = build(cfg["model"], n, streams, cfg["gaps"], ev, cfg["stall"], cfg["latency"], cfg["patterns"])
+  top = build(cfg["model"], n, streams, cfg["gaps"], ev, cfg["stall"], cfg["latency"], cfg["patterns"], cfg.get("dws"))
   total = sum(len(s) for s in streams)
   maxops = max(len(s) for s in streams)
   bound = int(maxops * (cfg["latency"] + 2) * 20 / (1 - min(cfg["stall"], 0.95)) * cfg["bp_factor"]) + 300
@@ -201,7 +207,7 @@ def simulate(sh, cfg, streams):
 
 
 def _same_op(e, r):
-  nb = r["len"] or 4
+  nb = r["nb"]
   if e[2] != r["addr"] or e[3] != nb: return False
   if e[1] == "read": return r["type"] == T_READ
   if e[1] == "write": return r["type"] == T_WRITE and (r["data"] & ((1 << (8 * nb)) - 1)) == e[4]
@@ -245,14 +251,14 @@ def check_history(sh, cfg, streams, ev, cyc, bound, err, image):
     elif e[0] == "op":
       kind, addr, nb = e[1], e[2], e[3]
       sh.count("ops_replayed")
-      if nb < 4: sh.count("subword_ops")
+      if nb not in (4, 8): sh.count("subword_ops")
       # match to the next unprocessed request of the served port (in-order, exactly-once)
       cand = None
       for p in (range(n) if hint is None else [hint]):
         if nproc[p] >= len(streams[p]):
           continue
         r = streams[p][nproc[p]]
-        rnb = r["len"] or 4
+        rnb = r["nb"]
         if r["addr"] != addr or rnb != nb:
           continue
         if kind == "read" and r["type"] == T_READ: cand = p; break
@@ -332,8 +338,11 @@ def run_config(sh, rng, case, probe=None):
     return [1 if rng.random() < 0.15 else 0 for _ in range(64)] + [1]
   amo_p = rng.choice([0, 0.1, 0.3]) if probe != "F-M2" else 0.4
   nops = rng.randrange(30, 120 if sh.tier == "quick" else 300)
-  streams = [gen_stream(rng, nops, nwords, amo_p, subword_amo) for _ in range(nports)]
-  cfg = {"model": model, "nports": nports, "latency": latency, "stall": stall, "nwords": nwords, "bp": bp,
+  dws = [32] * nports
+  if probe is None and rng.random() < 0.4:
+    dws = [rng.choice([16, 32, 64]) for _ in range(nports)]          # ports of different data widths on one memory
+  streams = [gen_stream(rng, nops, nwords, amo_p, subword_amo, dws[p]) for p in range(nports)]
+  cfg = {"model": model, "dws": dws, "nports": nports, "latency": latency, "stall": stall, "nwords": nwords, "bp": bp,
          "patterns": [pat() for _ in range(nports)], "gaps": [gen_gaps(rng, nops) for _ in range(nports)],
          "bp_factor": {"none": 1, "half": 3, "bursty": 4, "rare": 10}[bp], "subword_amo": subword_amo, "case": case}
   ev, cyc, bound, err, image = simulate(sh, cfg, streams)
@@ -341,6 +350,8 @@ def run_config(sh, rng, case, probe=None):
   sh.count("evaluations"); sh.count("configs_completed")
   sh.count(model + "_configs")
   if nports > 1: sh.count("multiport_configs")
+  if len(set(cfg["dws"])) > 1: sh.count("configs_with_ports_of_different_data_width")
+  if any(d != 32 for d in cfg["dws"]): sh.count("configs_with_16_or_64_bit_ports")
   if bp != "none": sh.count("backpressure_configs")
   has_amo = any(r["type"] in AMOS for s in streams for r in s)
   if nports > 1 or has_amo:
